@@ -152,6 +152,13 @@ def main(argv=None):
                 if o["status"] != "proved" and ent["first_bad"] is None:
                     ent["first_bad"] = o
     obligations = sorted(by_name.values(), key=lambda e: e["name"])
+    # units that run the code on tensors of fixed small shapes (symbolic entries): their obligations are proofs for those
+    # shapes only - reported as bounded, never counted as discharged proof obligations
+    unbounded_prefixes = tuple(meta.get("unbounded_units", ()))
+    if meta.get("shape_bounded_by_default"):
+        for e in obligations:
+            if e["kind"] in ("ensures", "invariant", "lemma") and not e["name"].startswith(unbounded_prefixes):
+                e["kind"] = "bounded_shape"
     n_obl = len(obligations)
     proved = [e for e in obligations if e["proved"] == e["instances"]]
     refuted = [e for e in obligations if e["refuted"] > 0]
@@ -161,12 +168,14 @@ def main(argv=None):
     canaries = [e for e in obligations if e["kind"] == "canary"]
     bad_canaries = [e for e in canaries if e["refuted"] == 0]
     # bounded stand-ins are reported separately and never counted as proved; a failing one is a concrete refutation
-    bounded_entries = [e for e in obligations if e["kind"] == "bounded"]
+    bounded_entries = [e for e in obligations if e["kind"] in ("bounded", "bounded_shape")]
     for e in bounded_entries:
-        bounded.append({"obligation": e["name"], "passed": e["proved"] == e["instances"], "instances": e["instances"]})
-    real_obl = [e for e in obligations if e["kind"] not in ("canary", "bounded")]
+        bounded.append({"obligation": e["name"], "passed": e["proved"] == e["instances"], "instances": e["instances"],
+                        "bound": "tensor shapes of the unit (all values)" if e["kind"] == "bounded_shape" else "execution on the real code"})
+    real_obl = [e for e in obligations if e["kind"] not in ("canary", "bounded", "bounded_shape")]
     refuted = [e for e in refuted if e["kind"] != "canary"]
-    proved = [e for e in proved if e["kind"] not in ("canary", "bounded")]
+    proved_shape = [e for e in proved if e["kind"] == "bounded_shape"]
+    proved = [e for e in proved if e["kind"] not in ("canary", "bounded", "bounded_shape")]
 
     baseline_path = os.path.join(VERIF, "baseline", prop + ".json")
     baseline = None
@@ -192,13 +201,13 @@ def main(argv=None):
             undecided.append(e)
     missing = []
     if baseline is not None and not a.unit:
-        have = {e["name"] for e in real_obl}
+        have = {e["name"] for e in real_obl} | {e["name"] for e in obligations if e["kind"] == "bounded_shape"}
         missing = [n for n in baseline.get(tier, baseline.get("quick", [])) if n not in have]
 
     if a.record_baseline:
         os.makedirs(os.path.dirname(baseline_path), exist_ok=True)
         b = baseline or {}
-        b[tier] = sorted(e["name"] for e in proved)
+        b[tier] = sorted(e["name"] for e in proved + proved_shape)
         json.dump(b, open(baseline_path, "w"), indent=0, sort_keys=True)
         print("baseline recorded: %d proved obligations (%s)" % (len(b[tier]), tier))
 
@@ -307,7 +316,7 @@ def main(argv=None):
     if bad_canaries:
         print("CHECKER-ERROR: canary obligations were not refuted: %s" % [e["name"] for e in bad_canaries])
         return 3
-    if len(real_obl) < meta.get("min_obligations", 1) and not engine_errors and not a.unit:
+    if len(real_obl) + len(proved_shape) < meta.get("min_obligations", 1) and not engine_errors and not a.unit:
         print("CHECKER-ERROR: only %d obligations generated (expected >= %d)" % (len(real_obl), meta.get("min_obligations", 1)))
         return 3
     if undecided:
